@@ -222,11 +222,25 @@ func (w *world) cert(pos int, bad bool, t uint64) []byte {
 func (w *world) sharedDS() uint64 { return w.h*100 + 90 }
 
 func (w *world) certDS(pos int, bad bool, t uint64, dsHeight uint64) []byte {
-	ds := []*lib.DoubleSigner{{Id: env.BLS(2).PublicKey().Bytes(), Heights: []uint64{dsHeight}}}
+	return w.certDSOf(env.BLS(2).PublicKey().Bytes(), pos, bad, t, dsHeight)
+}
+
+// lastMember is the public key of the last member of the Chain2 committee: the validator the certificates of this
+// world list as non-signer whenever they list one.
+func (w *world) lastMember() []byte {
+	vs, err := w.c.FSM.LoadCommittee(c07lib.Chain2, w.h)
+	if err != nil || vs.ValidatorSet == nil || len(vs.ValidatorSet.ValidatorSet) == 0 {
+		return env.BLS(3).PublicKey().Bytes()
+	}
+	return vs.ValidatorSet.ValidatorSet[len(vs.ValidatorSet.ValidatorSet)-1].PublicKey
+}
+
+func (w *world) certDSOf(id []byte, pos int, bad bool, t uint64, dsHeight uint64) []byte {
+	ds := []*lib.DoubleSigner{{Id: id, Heights: []uint64{dsHeight}}}
 	cpH := w.h*1000 + 10 + uint64(pos)
 	if bad {
 		// second entry repeats the first: valid statelessly, invalid once the first has been indexed
-		ds = append(ds, &lib.DoubleSigner{Id: env.BLS(2).PublicKey().Bytes(), Heights: []uint64{dsHeight}})
+		ds = append(ds, &lib.DoubleSigner{Id: id, Heights: []uint64{dsHeight}})
 		cpH += 500
 	}
 	tx, err := c07lib.CertResultsTx(w.c, c07lib.CertSpec{ChainHeight: w.lastC2 + 1 + uint64(pos), RootHeight: w.h, Proposer: 0, NonSigners: w.nonSigners, RewardTo: 5,
@@ -303,6 +317,13 @@ var templates = []tmpl{
 			h += uint64(occ)
 		}
 		return w.certDS(pos, false, tstamp(w.h, 11, pos), h)
+	}},
+	// a valid certificate whose double signer is the validator the certificates of this world list as NON-SIGNER: at the end
+	// of a non-sign window the failing certificate template slashes that validator (and books the slash in the per-block
+	// slash budget) before it fails; this one slashes the same validator for the same committee afterwards (sixth-round seed:
+	// the budget of a rolled-back transaction stayed used)
+	{name: "cert2y", build: func(w *world, occ, pos int) []byte {
+		return w.certDSOf(w.lastMember(), pos, false, tstamp(w.h, 12, pos), w.h*100+70+uint64(occ))
 	}},
 }
 
